@@ -9,11 +9,12 @@
 EXTENDS Lsp, Json
 
 CONSTANTS Deviations, MaxHist
-Files == {"main", "inc"}
-TextsOf == [main |-> {"ma", "mb", "mx"}, inc |-> {"ia", "ib", "ix"}]
+Files == {"main", "inc", "cfg"}
+TextsOf == [main |-> {"ma", "mb", "mx"}, inc |-> {"ia", "ib", "ix"}, cfg |-> {"ca", "cb"}]
+EntryOf(t) == IF t = "cb" THEN "gone" ELSE "main"          \* config text "cb" names an entry file that does not exist
 ImportsInc(t) == t \in {"ma", "mx"}
 Broken(t) == t \in {"mx", "ix"}
-TreeOf(fm) == {"main"} \cup (IF ImportsInc(fm["main"]) THEN {"inc"} ELSE {})
+TreeOf(fm) == IF fm["main"] = NoText THEN {} ELSE {"main"} \cup (IF ImportsInc(fm["main"]) /\ fm["inc"] # NoText THEN {"inc"} ELSE {})
 Seen(fm) == [f \in TreeOf(fm) |-> fm[f]]
 DiagOf(fm, g) == IF Broken(fm[g]) THEN g \o "/" \o fm["main"] \o (IF "inc" \in TreeOf(fm) THEN fm["inc"] ELSE "") ELSE "none"
 
@@ -27,53 +28,60 @@ PosClasses == DOMAIN PosOf
 VARIABLES s, disk, hist
 vars == <<s, disk, hist>>
 
-Init == /\ disk \in [Files -> {"ma", "mb", "ia", "ix"}] /\ disk["main"] \in TextsOf["main"] /\ disk["inc"] \in TextsOf["inc"]
-        /\ s = S0(disk) /\ hist = <<>>
+Ok(b) == Resolvable(disk, b, "cfg", EntryOf)
+TreeNow(b) == IF Ok(b) THEN TreeOf(Eff(disk, b)) ELSE {}
+Init == /\ disk \in [Files -> {"ma", "mb", NoText, "ia", "ix", "ca"}] /\ disk["main"] \in {"ma", "mb", NoText} /\ disk["inc"] \in {"ia", "ix"}
+        /\ disk["cfg"] = "ca"
+        /\ s = S0(disk, disk["main"] # NoText, "main") /\ hist = <<>>
 
 Ev(k, f, t) == [k |-> k, f |-> f, t |-> t]
 NewS(b) == Eff(disk, b)
 DidOpen(f, t) == /\ s.alive /\ s.buf[f] = NoText
-                 /\ LET fm == NewS([s.buf EXCEPT ![f] = t]) IN s' = Insert(s, disk, f, t, TreeOf(fm), LAMBDA g : DiagOf(fm, g), Deviations)
+                 /\ LET b == [s.buf EXCEPT ![f] = t]
+                        fm == NewS(b) IN s' = Insert(s, disk, f, t, Ok(b), "main", TreeNow(b), LAMBDA g : DiagOf(fm, g), Deviations)
                  /\ hist' = Append(hist, Ev("open", f, t)) /\ UNCHANGED disk
 DidChange(f, t) == /\ s.alive /\ s.buf[f] # NoText /\ s.buf[f] # t
-                   /\ LET fm == NewS([s.buf EXCEPT ![f] = t]) IN s' = Insert(s, disk, f, t, TreeOf(fm), LAMBDA g : DiagOf(fm, g), Deviations)
+                   /\ LET b == [s.buf EXCEPT ![f] = t]
+                          fm == NewS(b) IN s' = Insert(s, disk, f, t, Ok(b), "main", TreeNow(b), LAMBDA g : DiagOf(fm, g), Deviations)
                    /\ hist' = Append(hist, Ev("change", f, t)) /\ UNCHANGED disk
 DidClose(f) == /\ s.alive /\ s.buf[f] # NoText
-               /\ LET fm == NewS([s.buf EXCEPT ![f] = NoText]) IN s' = Close(s, disk, f, TreeOf(fm), LAMBDA g : DiagOf(fm, g), Deviations)
+               /\ LET b == [s.buf EXCEPT ![f] = NoText]
+                      fm == NewS(b) IN s' = Close(s, disk, f, Ok(b), "main", TreeNow(b), LAMBDA g : DiagOf(fm, g), Deviations)
                /\ hist' = Append(hist, Ev("close", f, NoText)) /\ UNCHANGED disk
 (* a request: trips one of the string-index defects (if the file is part of the analysed tree), or is answered;    *)
 (* an answered rename at a symbol mutates the cache in the coded reading.                                            *)
 Request(kind, f, pc) ==
   /\ s.alive
-  /\ LET d == IF f \in TreeOf(s.an) THEN DeathOf(kind, LT, PosOf[pc][1], PosOf[pc][2]) ELSE "" IN
+  /\ LET d == IF s.has /\ f \in TreeOf(s.an) THEN DeathOf(kind, LT, PosOf[pc][1], PosOf[pc][2]) ELSE "" IN
      IF d # "" /\ d \in Deviations THEN s' = Die(s, d)
-     ELSE IF kind = "rename" /\ pc = "valid" /\ f \in TreeOf(s.an) THEN s' = Renamed(s, Deviations)
+     ELSE IF kind = "rename" /\ pc = "valid" /\ s.has /\ f \in TreeOf(s.an) THEN s' = Renamed(s, Deviations)
      ELSE s' = s
   /\ hist' = IF kind = "rename" /\ pc = "valid" /\ f = "main" THEN Append(hist, Ev("rename", f, NoText)) ELSE hist
   /\ UNCHANGED disk
 
 Notif == \E f \in Files : (\E t \in TextsOf[f] : DidOpen(f, t) \/ DidChange(f, t)) \/ DidClose(f)
-NextDesign == Notif \/ \E kind \in Kinds, f \in Files \cup {"other"}, pc \in PosClasses : Request(kind, f, pc)
+NextDesign == Notif \/ \E kind \in Kinds, f \in {"main", "inc", "other"}, pc \in PosClasses : Request(kind, f, pc)
 NextGen == Notif \/ Request("rename", "main", "valid")
 SpecDesign == Init /\ [][NextDesign]_vars
 SpecGen == Init /\ [][NextGen]_vars
 DesignView == <<s, disk>>
 HistBound == Len(hist) <= MaxHist
-GenInit == disk = [main |-> "ma", inc |-> "ia"]          \* exported scripts run on one disk layout
+GenInit == disk["inc"] = "ia" /\ disk["main"] \in {"ma", NoText}     \* exported scripts run on two disk layouts: entry file on disk / only ever a buffer
 
 (* ---------------------------------------------------------------- properties *)
 EffNow == Eff(disk, s.buf)
-InvFreshAnalysis == s.alive => FreshAnalysis(s, disk, Seen)
-InvFreshShown == s.alive => FreshShown(s, disk, TreeOf(EffNow), LAMBDA g : DiagOf(EffNow, g))
+SeenA(fm) == [f \in TreeOf(fm) |-> fm[f]]
+InvFreshAnalysis == s.alive => FreshAnalysis(s, disk, Ok(s.buf), "main", SeenA)
+InvFreshShown == s.alive => FreshShown(s, disk, TreeNow(s.buf), LAMBDA g : DiagOf(EffNow, g))
 InvTotal == Total(s)
 (* ... weakened only by the witnesses of the recorded deviations *)
-DroppedOnly == \A g \in Files : s.shown[g] # (IF g \in TreeOf(EffNow) THEN DiagOf(EffNow, g) ELSE "none") => g \notin TreeOf(EffNow)
-InvFreshAnalysisW == s.alive => (FreshAnalysis(s, disk, Seen) \/ CloseWitness(s) \/ TaintWitness(s))
-InvFreshShownW == s.alive => (FreshShown(s, disk, TreeOf(EffNow), LAMBDA g : DiagOf(EffNow, g)) \/ CloseWitness(s) \/ DroppedOnly)
+DroppedOnly == \A g \in Files : s.shown[g] # (IF g \in TreeNow(s.buf) THEN DiagOf(EffNow, g) ELSE "none") => g \notin TreeNow(s.buf)
+InvFreshAnalysisW == s.alive => (FreshAnalysis(s, disk, Ok(s.buf), "main", SeenA) \/ CloseWitness(s) \/ TaintWitness(s))
+InvFreshShownW == s.alive => (FreshShown(s, disk, TreeNow(s.buf), LAMBDA g : DiagOf(EffNow, g)) \/ CloseWitness(s) \/ DroppedOnly)
 InvTotalW == s.alive \/ s.death \in Deviations
 TypeOK == /\ s.alive \in BOOLEAN /\ s.taint \in BOOLEAN /\ s.stale \subseteq Files
-          /\ \A f \in Files : s.buf[f] \in TextsOf[f] \cup {NoText} /\ s.an[f] \in TextsOf[f]
+          /\ \A f \in Files : s.buf[f] \in TextsOf[f] \cup {NoText} /\ s.an[f] \in TextsOf[f] \cup {NoText}
 
 (* spec -> impl: one line per explored history *)
-EmitCase == PrintT(<<"CASE", ToJson([hist |-> hist])>>)
+EmitCase == PrintT(<<"CASE", ToJson([hist |-> hist, main |-> disk["main"]])>>)
 ================================================================================
